@@ -67,14 +67,20 @@ func (p *VipnodePool) CloseRemote(remote jsonrpc2.Service) error {
 	p.mu.Lock()
 	defer p.mu.Unlock()
 
-	nodeID, ok := p.remoteNodeLookup[remote]
-	if !ok {
+	if _, ok := p.remoteNodeLookup[remote]; !ok {
 		// Nothing to clean up
 		return nil
 	}
 
 	delete(p.remoteNodeLookup, remote)
-	delete(p.remoteHosts, nodeID)
+	// Only forget hosts that are still registered on this connection: a host
+	// that has since reconnected on a new connection stays registered, and
+	// every host that registered on this connection is cleaned up.
+	for nodeID, service := range p.remoteHosts {
+		if service == remote {
+			delete(p.remoteHosts, nodeID)
+		}
+	}
 
 	return nil
 }
